@@ -461,5 +461,8 @@ def map_symbolic(E, e, g, it, st, fx):
                 good.assume(z3.ForAll([jb], z3.Implies(z3.substitute(c, (j, jb)), arr[jb] == z3.substitute(t, (j, jb)))))
             res = ghost.new_pyarr(good, arr, n)
         good.ghost["last_map"] = {"src": it, "result": res}
+        hook = good.ghost.get("on_map")
+        if hook is not None:
+            hook(E, good, res)
         outs.append(Ev(good, res))
     return outs
